@@ -284,6 +284,64 @@ var c06Forms = []string{"&'-receiver method call", "&'-receiver method call with
 var c06Places = []string{"const", "&P parameter", "&P receiver", "element of a const array", "field of a const", "&P local", "struct field of type &P",
 	"let", "element of a let array", "&'P parameter", "&'P local"}
 
+// HarnessC06FnTypes: a function (named, or a function literal) whose parameter is a MUTABLE reference and that writes
+// through it must not be usable where a function taking an IMMUTABLE reference is expected (argument of a
+// function-typed parameter, annotated let, assignment, struct field, return value): the holder calls it with a value
+// it only has a shared reference to.  The same positions accept a function of exactly the expected type, and a
+// function taking &P where &P is expected.
+func HarnessC06FnTypes() {
+	pos := verifrt.Choice("position", 6)
+	src := verifrt.Choice("source", 2)  // 0 named function, 1 function literal
+	have := verifrt.Choice("have", 2)   // parameter mutability of the function supplied: 0 &P, 1 &'P
+	want := verifrt.Choice("want", 2)   // parameter mutability the slot declares
+	refs := []string{"&P", "&'P"}
+	fn := "bump"
+	if have == 0 {
+		fn = "peek"
+	}
+	if src == 1 {
+		if have == 1 {
+			fn = "fn(q: &'P) { q.X = q.X + 1; }"
+		} else {
+			fn = "fn(q: &P) { }"
+		}
+	}
+	slot := "fn(q: " + refs[want] + ")"
+	var sb strings.Builder
+	sb.WriteString("type P struct { .X: i32 };\n")
+	sb.WriteString("type H struct { .F: " + slot + " };\n")
+	sb.WriteString("fn bump(q: &'P) { q.X = q.X + 1; }\n")
+	sb.WriteString("fn peek(q: &P) { }\n")
+	sb.WriteString("fn apply(p: " + refs[want] + ", cb: " + slot + ") { cb(p); }\n")
+	switch pos {
+	case 0:
+		if want == 1 {
+			sb.WriteString("fn t() { let v: P = { .X = 1 }; apply(&'v, " + fn + "); }\n")
+		} else {
+			sb.WriteString("fn t() { let v: P = { .X = 1 }; apply(&v, " + fn + "); }\n")
+		}
+	case 1:
+		sb.WriteString("fn t() { let g: " + slot + " = " + fn + "; }\n")
+	case 2:
+		sb.WriteString("fn t() { let g: " + slot + " = " + []string{"peek", "bump"}[want] + "; g = " + fn + "; }\n")
+	case 3:
+		sb.WriteString("fn t() { let h: H = { .F = " + fn + " }; }\n")
+	case 4:
+		sb.WriteString("fn t() -> " + slot + " { return " + fn + "; }\n")
+	case 5:
+		sb.WriteString("fn t() { let h: H = { .F = " + []string{"peek", "bump"}[want] + " }; h.F = " + fn + "; }\n")
+	}
+	o := Run(sb.String())
+	switch {
+	case have == want:
+		verifrt.Assert(o.Accepted(), "a function of exactly the expected function type is rejected: "+o.Messages())
+	case have == 1 && want == 0:
+		verifrt.Assert(!o.Accepted(), "a function that writes through a &' parameter is accepted where a function taking an immutable reference is expected ("+c06FnPositions[pos]+")")
+	}
+}
+
+var c06FnPositions = []string{"argument of a function-typed parameter", "annotated let", "assignment to a function-typed variable", "struct field initialiser", "return value", "assignment to a function-typed field"}
+
 // ---------------------------------------------------------------------------------------------------- C19
 type c19Prog struct {
 	src      string
@@ -329,7 +387,8 @@ fn t(a: i32, b: []i32) -> i32 {
 `, true, nil},
 }
 
-func c19Check(o *Outcome, pr c19Prog, src string, at int, tr string, what string) {
+// wide = number of bytes of tr beyond its number of characters (non-ASCII comment text: columns count characters)
+func c19Check(o *Outcome, pr c19Prog, src string, at int, tr string, what string, wide int) {
 	verifrt.Assert(o.Accepted() == pr.accepted, what+" changes whether the program is accepted")
 	if pr.accepted {
 		return
@@ -352,7 +411,7 @@ func c19Check(o *Outcome, pr c19Prog, src string, at int, tr string, what string
 			insLine := strings.Count(pr.src[:at], "\n") + 1
 			if insLine == line {
 				if nl == 0 {
-					wantCol += len(tr)
+					wantCol += len(tr) - wide
 				} else {
 					wantCol = base - at + len(tr) - strings.LastIndex(tr, "\n")
 				}
@@ -396,7 +455,7 @@ func c19Gaps(shard, shards int) {
 	if j == per {
 		if shard == 0 {
 			// calibration: the unmodified program behaves as recorded
-			c19Check(Run(pr.src), pr, pr.src, len(pr.src), "", "CALIBRATION: the unmodified program")
+			c19Check(Run(pr.src), pr, pr.src, len(pr.src), "", "CALIBRATION: the unmodified program", 0)
 		}
 		return
 	}
@@ -406,7 +465,15 @@ func c19Gaps(shard, shards int) {
 	}
 	at := toks[g].Start.Index // gap g = immediately before token g (the last token is EOF: trailing trivia)
 	var tr string
-	switch verifrt.Choice("trivia", 5) {
+	wide := 0
+	switch verifrt.Choice("trivia", 7) {
+	case 5:
+		// non-ASCII comment text on the same line as what follows: columns count characters, the index counts bytes
+		tr = "/* \u00e9 */"
+		wide = 1
+	case 6:
+		tr = "/*\u65e5\u672c" + c19Char() + "*/"
+		wide = 4
 	case 0:
 		tr = " "
 	case 1:
@@ -419,7 +486,7 @@ func c19Gaps(shard, shards int) {
 		tr = "//" + c19Char() + "\n"
 	}
 	src := pr.src[:at] + tr + pr.src[at:]
-	c19Check(Run(src), pr, src, at, tr, "inserting trivia between two tokens")
+	c19Check(Run(src), pr, src, at, tr, "inserting trivia between two tokens", wide)
 }
 
 // c19Char: one symbolic character of comment text: any printable ASCII character in the thorough tier; in the quick
@@ -518,6 +585,60 @@ func HarnessC11Positions0() { c11Run(0, 3) }
 func HarnessC11Positions1() { c11Run(3, 6) }
 func HarnessC11Positions2() { c11Run(6, 9) }
 func HarnessC11Positions3() { c11Run(9, 12) }
+
+// HarnessC07Escapes: a function whose result is a reference returns a reference to one of its locals - declared with
+// or without an initialiser, a whole local or a field of it, directly or through a reference variable, at the end of
+// the body or inside a branch: rejected.  Returning a reference it received (a parameter, a field behind a reference
+// parameter) is accepted.
+func HarnessC07Escapes() {
+	local := verifrt.Choice("local", 7)
+	form := verifrt.Choice("form", 2)
+	cx := verifrt.Choice("context", 3)
+	decl, place := "", ""
+	escapes := true
+	switch local {
+	case 0:
+		decl, place = "let a: i32 = n + 1;", "a"
+	case 1:
+		decl, place = "let a: i32; a = n + 1;", "a"
+	case 2:
+		decl, place = "let p: P = { .X = n, .Y = 2 };", "p.Y"
+	case 3:
+		decl, place = "let p: P; p.Y = n;", "p.Y"
+	case 4:
+		decl, place = "let a: i32 = 1, b: i32; b = n;", "b"
+	case 5:
+		decl, place = "", "q"
+		escapes = false
+	case 6:
+		decl, place = "", "w.Y"
+		escapes = false
+	}
+	ret := "return &" + place + ";"
+	if local == 5 {
+		ret = "return q;"
+	}
+	if form == 1 && local != 5 {
+		ret = "let r: &i32 = &" + place + "; return r;"
+	}
+	body := ret
+	switch cx {
+	case 1:
+		body = "if n > 0 { " + ret + " }\nreturn q;"
+	case 2:
+		body = "while n > 0 { " + ret + " }\nreturn q;"
+	}
+	src := "type P struct { .X: i32, .Y: i32 };\nfn t(n: i32, q: &i32, w: &P) -> &i32 {\n" + decl + "\n" + body + "\n}\n"
+	o := RunDeep(src)
+	if escapes {
+		verifrt.Assert(!o.Accepted(), "a function returns a reference to one of its locals and the program is accepted ("+c07Locals[local]+")")
+	} else {
+		verifrt.Assert(o.Accepted(), "returning a reference the function received is rejected: "+o.Messages())
+	}
+}
+
+var c07Locals = []string{"initialised local", "local declared without an initialiser", "field of an initialised struct local", "field of a struct local declared without an initialiser",
+	"second item of a multi-item let, declared without an initialiser", "reference parameter", "field behind a reference parameter"}
 
 // ---------------------------------------------------------------------------------------------------- C12
 // c12Name: an identifier whose first letter is a symbolic ASCII letter (its case decides visibility), followed by a
@@ -641,7 +762,7 @@ func RunProject(paths []string, srcs []string) *Outcome {
 // symbolic, named from module p/app in each syntactic position: accepted iff the name is upper-case.
 func HarnessC12Modules() {
 	n, exported := c12Name("name")
-	kind := verifrt.Choice("kind", 27)
+	kind := verifrt.Choice("kind", 31)
 	lib := "type Pub struct { .V: i32 };\nfn Make() -> Pub { return { .V = 1 } as Pub; }\n"
 	use := ""
 	top := "" // module-level declarations of the importing module
@@ -729,6 +850,20 @@ func HarnessC12Modules() {
 	case 26:
 		lib += structT
 		use = "let f: fn(q: lib::" + n + ") -> i32 = fn(q: lib::" + n + ") -> i32 { return q.V; };"
+	case 27:
+		// the symbol is declared in one statement together with (after) an exported one
+		lib += "const Limit: i32 = 100, " + n + ": i32 = 3;\n"
+		use = "let x: i32 = lib::" + n + ";"
+	case 28:
+		lib += "let Total: i32 = 100, " + n + ": i32 = 3;\n"
+		use = "let x: i32 = lib::" + n + ";"
+	case 29:
+		// ... together with (before) a private one: an exported name stays reachable
+		lib += "const " + n + ": i32 = 3, hidden: i32 = 4;\n"
+		use = "let x: i32 = lib::" + n + ";"
+	case 30:
+		lib += "const First: i32 = 1, second: i32 = 2, " + n + ": i32 = 3;\n"
+		use = "let x: i32 = lib::" + n + " + lib::First;"
 	}
 	app := "import \"p/lib\";\n" + top + "fn main() {\n" + use + "\n}\n"
 	o := RunProject([]string{"p/lib", "p/app"}, []string{lib, app})
@@ -744,7 +879,9 @@ var c12Positions = []string{"call", "constant in an initialiser", "variable in a
 	"aliased type", "element type of a dynamic array", "element type of a fixed array", "value type of a map parameter", "optional type",
 	"type of a module-level constant", "upper bound of a range", "lower bound of a range", "type in an interface method signature",
 	"type in a method signature", "value type of a result", "array index", "match pattern", "default of ??",
-	"referenced type of a parameter", "length of a fixed array type", "function type in an annotation"}
+	"referenced type of a parameter", "length of a fixed array type", "function type in an annotation",
+	"constant declared after an exported one in the same statement", "variable declared after an exported one in the same statement",
+	"constant declared before a private one in the same statement", "third constant of a statement"}
 
 // ---------------------------------------------------------------------------------------------------- C03
 type c03Rule struct {
@@ -803,6 +940,9 @@ var c03Contexts = []struct {
 	{"match a { 1 => {", "} _ => { } }", false},
 	{"let g := fn() {", "};", true},
 	{"if c { while c { match a { 1 => {", "} _ => { } } break; } }", false},
+	// a function literal (of another result type) is checked earlier in the same body / in an earlier block
+	{"let g := fn() { }; let h := fn(q: i64) -> i64 { return q; };", "", false},
+	{"if c { let g := fn() -> bool { return true; }; }", "", false},
 }
 
 const c03Prelude = `type P struct { .X: i32, .Y: i64 };
